@@ -99,10 +99,11 @@ type Contracts struct {
 	ReadOnly map[string]bool
 	constID  map[string]string // fnconst/typeconst name -> numeral, filled in by the engine
 	Macros   map[string]*SX
+	Concrete map[string]string
 }
 
 func newContracts() *Contracts {
-	return &Contracts{DeclBy: map[string]*Decl{}, ByName: map[string]*Contract{}, ReadOnly: map[string]bool{}, constID: map[string]string{}, Macros: map[string]*SX{}}
+	return &Contracts{DeclBy: map[string]*Decl{}, ByName: map[string]*Contract{}, ReadOnly: map[string]bool{}, constID: map[string]string{}, Macros: map[string]*SX{}, Concrete: map[string]string{}}
 }
 
 // loadGoContractFile extracts /*@ ... */ blocks from a comment-only Go file.
@@ -229,6 +230,10 @@ func (c *Contracts) loadForm(file string, f *SX) error {
 		return c.addDecl(&Decl{Kind: "fnconst", Name: f.List[1].Atom, SX: f, File: file, Line: f.Line})
 	case "typeconst":
 		return c.addDecl(&Decl{Kind: "typeconst", Name: f.List[1].Atom, SX: f, File: file, Line: f.Line})
+	case "concrete":
+		// (concrete uf spec): in model-finding mode the uninterpreted function is replaced by this concrete spec function
+		c.Concrete[f.List[1].Atom] = f.List[2].Atom
+		return nil
 	case "sort", "uf", "const":
 		return c.addDecl(&Decl{Kind: h, Name: f.List[1].Atom, SX: f, File: file, Line: f.Line})
 	case "spec", "specrec":
